@@ -116,6 +116,7 @@ func (c10) Plan(tier string, seed int64) []core.Scenario {
 	}
 	// every built-in method x every params shape against a client that has a live channel and an in-flight call
 	out = append(out, core.Sc("builtins-client").WithN("part", 0), core.Sc("builtins-client").WithN("part", 1), core.Sc("builtins-client").WithN("part", 2))
+	out = append(out, core.Sc("calls-plain-client").WithN("plain", 1))
 	out = append(out, core.Sc("limits"))
 	for i := 0; i < nhttp; i++ {
 		out = append(out, core.Sc("http-mut").WithN("n", 400))
@@ -149,6 +150,17 @@ func (p c10) Run(sc core.Scenario) core.Result {
 			end = len(g)
 		}
 		p.attackClient(sc, r, g[sc.I("off"):end], fmt.Sprintf("grid[%d:%d]", sc.I("off"), end))
+	case "calls-plain-client":
+		// call / notification / built-in frames sent to a client that registered no reverse handler at all
+		var frames []string
+		for _, m := range []string{"S.Echo", "R.Ident", "X", "S.Note", "xrpc.cancel", "xrpc.ch.val", "xrpc.ch.close", ""} {
+			for _, ps := range []string{"", "null", "[]", `["a"]`, `["a",""]`, "{}", "[1]", "[1,2]"} {
+				for _, id := range []string{"", "1", `"s"`, "null"} {
+					frames = append(frames, c10Frame(m, ps, id))
+				}
+			}
+		}
+		p.attackClient(sc, r, frames, "calls to a handler-less client")
 	case "builtins-client":
 		var frames []string
 		m := c10Methods[sc.I("part")]
@@ -239,7 +251,7 @@ func probeSame(conn *websocket.Conn, n int) error {
 	if err := conn.WriteMessage(websocket.TextMessage, []byte(req)); err != nil {
 		return fmt.Errorf("write: %w", err)
 	}
-	conn.SetReadDeadline(time.Now().Add(core.Grace))
+	conn.SetReadDeadline(time.Now().Add(core.Eff(core.Grace)))
 	for {
 		_, msg, err := conn.ReadMessage()
 		if err != nil {
@@ -369,6 +381,7 @@ func (c10) attackServer(sc core.Scenario, r *core.R, seqs [][]wsMsg, label strin
 // attackClient: a fake server feeds hostile frames to a real client living in a host process.
 func (c10) attackClient(sc core.Scenario, r *core.R, frames []string, label string) {
 	rng := sc.Rand()
+	plain := sc.I("plain") == 1 // a client without any reverse handler
 	up := websocket.Upgrader{CheckOrigin: func(*http.Request) bool { return true }}
 	var mu sync.Mutex
 	var conns []*websocket.Conn
@@ -400,7 +413,11 @@ func (c10) attackClient(sc core.Scenario, r *core.R, frames []string, label stri
 	var alivePongs int64
 	start := func() bool {
 		var err error
-		host, err = StartHost("client", addr)
+		if plain {
+			host, err = StartHost("client", addr, "plain")
+		} else {
+			host, err = StartHost("client", addr)
+		}
 		if err != nil {
 			r.Inconclusive("client host: %v", err)
 			return false
@@ -450,6 +467,10 @@ func (c10) attackClient(sc core.Scenario, r *core.R, frames []string, label stri
 		}
 	}()
 	probe := func(n int) bool {
+		if plain {
+			time.Sleep(15 * time.Millisecond)
+			return host.Alive()
+		}
 		before := atomic.LoadInt64(&alivePongs)
 		req := fmt.Sprintf(`{"jsonrpc":"2.0","id":"rp%d","method":"R.Ident","params":["Trpx%d"]}`, n, n)
 		wmu.Lock()
